@@ -11,14 +11,19 @@ if [ "$id" != replay ]; then export VERIF_TIER=${2:-${VERIF_TIER:-quick}}; fi
 B=".build/run.$$"
 mkdir -p "$B"
 trap 'rm -rf "$B"' EXIT
+# VERIF_REPO (only set by tools/seedrun.sh): build against a scratch worktree of /repo carrying a seeded change.
+MODFILE=""
+if [ -n "${VERIF_REPO:-}" ] && [ "$VERIF_REPO" != /repo ]; then
+  sed "s#=> /repo#=> $VERIF_REPO#" go.mod > "$B/go.mod"; cp go.sum "$B/go.sum"; MODFILE="-modfile=$B/go.mod"
+fi
 python3 tools/genoverlay.py "$B/overlay" 2> "$B/gen.log" || { cat "$B/gen.log"; echo "overlay generation failed"; exit 2; }
-if ! go build -overlay "$B/overlay/overlay.json" -o "$B/vcheck" ./cmd/vcheck 2> "$B/build.log"; then
+if ! go build $MODFILE -overlay "$B/overlay/overlay.json" -o "$B/vcheck" ./cmd/vcheck 2> "$B/build.log"; then
   cat "$B/build.log"
   echo "BUILD FAILED (check cannot run)"; exit 2
 fi
 if [ "$id" = c17 ]; then
   # second, race-instrumented build of the same binary for the data-race pass
-  if go build -race -overlay "$B/overlay/overlay.json" -o "$B/vcheck-race" ./cmd/vcheck 2> "$B/build-race.log"; then
+  if go build $MODFILE -race -overlay "$B/overlay/overlay.json" -o "$B/vcheck-race" ./cmd/vcheck 2> "$B/build-race.log"; then
     export VERIF_RACE_BIN="$VERIF_ROOT/$B/vcheck-race"
   else
     cat "$B/build-race.log"; echo "race build failed: data-race clause will not be checked"
